@@ -54,6 +54,75 @@ def observed(msgs, what):
     return (g[0]["file"], g[0]["line"], g[0]["col"]) if g else None
 
 
+def lm_norm(s):
+    """blanks are not what the line-macro family is about: runs of blanks count as one, none next to brackets, commas, '=' and ';'"""
+    s = re.sub(r"[ \t\r]+", " ", s).strip()
+    return re.sub(r" ?([\[\],;=]) ?", r"\1", s)
+
+
+def judge_linemacro(run, himpl, lm_cases):
+    """Family 'linemacro' (checks/ppgen.py:LineMacros): __LINE__/__FILE__ reach the text through macros in every position (operand of
+    '##' / '#', aliases, calls in bodies, arguments; defines in the same file, in headers, behind conditionals, continued, re-defined)
+    and must give the line / file of the macro use written in the source; preprocessor diagnostics of an expansion (EmptyArgument,
+    RecursiveMacro) must name the same place.  The expected text of every use is computed by the generator (no model involved)."""
+    def fenc(c):
+        return enc_files({k: v.encode("latin-1") for k, v in c["files"].items()})
+    ppl = ["PP\t%s\t%s" % (V.hx(c["main"]), fenc(c)) for c in lm_cases]
+    runl = ["RUN\t%s\t%s" % (V.hx(c["main"]), fenc(c)) for c in lm_cases]
+    rc, ipp, e1 = V.run_lines_parallel([himpl], ppl, timeout=3000)
+    rc, irun, e2 = V.run_lines_parallel([himpl], runl, timeout=3000)
+    st = {"cases": len(lm_cases), "kinds": {}, "features": {}, "uses_checked": 0, "uses_through_macros": 0, "uses_in_included_files": 0,
+          "uses_more_than_6_lines_from_or_in_another_file_than_every_define_they_go_through": 0, "diagnostics_checked": 0, "distinct": 0, "samples": []}
+    distinct = set()
+    for c, ip, ir in zip(lm_cases, ipp, irun):
+        st["kinds"][c["kind"]] = st["kinds"].get(c["kind"], 0) + 1
+        for f in c["features"]:
+            st["features"][f] = st["features"].get(f, 0) + 1
+        distinct.add(hash(tuple(sorted(c["files"].items()))))
+        rep = {"kind": c["kind"], "main": c["main"], "files_hex": {k: V.hx(v.encode("latin-1")) for k, v in c["files"].items()},
+               "files_text": c["files"], "uses": c["uses"], "diags": c["diags"], "features": c["features"],
+               "impl_pp": ip[:200], "impl_run": ir[:3000]}
+        fp, fr = ip.split("\t"), ir.split("\t")
+        recursive = any(d[0] == 10014 for d in c["diags"])
+        if fr[0] in ("CRASH", "TIMEOUT", "OOM", "EXCEPTION", "EXIT", "HARNESS-LOST", "BADLINE") or fp[0] not in ("OK", "FAIL") \
+           or (fp[0] == "FAIL") != recursive:
+            run.violation("a layout of macro definitions and uses %s: %s / %s" %
+                          ("with a macro that uses itself is preprocessed without an error" if recursive else "does not preprocess",
+                           " ".join(fr[:1]), ip[:60]), rep)
+            continue
+        bad = False
+        if fp[0] == "OK":
+            out = V.unhx(fp[1]).decode("latin-1")
+            rep["impl_output"] = out[:4000]
+            olines = [lm_norm(l) for l in out.split("\n")]
+            for marker, fn, line, exp, nmac, away in c["uses"]:
+                st["uses_checked"] += 1
+                st["uses_through_macros"] += nmac > 0
+                st["uses_in_included_files"] += fn != c["main"]
+                st["uses_more_than_6_lines_from_or_in_another_file_than_every_define_they_go_through"] += bool(away)
+                got = [l for l in olines if l.startswith(marker + "=")]
+                if len(got) != 1 or got[0] != lm_norm(exp):
+                    run.violation("__LINE__/__FILE__ of the macro uses written at line %d of /T/%s expand to  %s  - expected  %s" %
+                                  (line, fn, got[0] if got else "(line %s not in the output)" % marker, lm_norm(exp)), rep)
+                    bad = True
+                    break
+        if bad:
+            continue
+        # preprocessor diagnostics raised while a macro use is expanded name the line and file of that use
+        msgs = parse_msgs(fr[1] if len(fr) > 1 else "-")
+        got = sorted(set((m["code"], m["file"], m["line"]) for m in msgs if m["code"] in (10013, 10014)))
+        want = sorted(set((d[0], d[1], d[2]) for d in c["diags"]))
+        st["diagnostics_checked"] += len(want)
+        if got != want:
+            run.violation("preprocessor diagnostics of macro expansions (10013 EmptyArgument / 10014 RecursiveMacro) reported at %s, the uses "
+                          "that raise them are written at %s" % (got, want), rep)
+            continue
+        if len(st["samples"]) < 2:
+            st["samples"].append({"kind": c["kind"], "files": {k: v[:500] for k, v in c["files"].items()}, "uses": c["uses"][:6], "diags": c["diags"]})
+    st["distinct"] = len(distinct)
+    return st
+
+
 def main(replay=None):
     run = V.Run(PID, "proof")
     rng = run.rng
@@ -64,7 +133,12 @@ def main(replay=None):
     drv = ["sh", "-c", "ulimit -s 2000000 2>/dev/null; exec %s" % drv0]
 
     cases = []
-    if replay:
+    lm_cases = []
+    if replay and str(json.load(open(replay))["replay"].get("kind", "")).startswith("linemacro"):
+        r = json.load(open(replay))["replay"]
+        lm_cases.append({"kind": r["kind"], "main": r["main"], "files": {k: V.unhx(v).decode("latin-1") for k, v in r["files_hex"].items()},
+                         "uses": r["uses"], "diags": r["diags"], "features": r.get("features", [])})
+    elif replay:
         r = json.load(open(replay))["replay"]
         cases.append({"kind": r["kind"], "main": r["main"], "files": {k: V.unhx(v).decode("latin-1") for k, v in r["files_hex"].items()},
                       "fault_file": r["fault_file"], "expect": [tuple(e) for e in r["expect"]], "col_exact": r["col_exact"],
@@ -79,6 +153,9 @@ def main(replay=None):
                               "comment_before": r.get("comment_before", False), "features": r.get("features", ["corpus"]), "nlines": 0})
         for i in range(40000 if thorough else 6000):
             cases.append(ppgen.c14_case(rng))
+        # drawn behind the layouts: the stream of layout cases of a seed stays what it was
+        for i in range(10000 if thorough else 1500):
+            lm_cases.append(ppgen.linemacro_case(rng))
 
     def fenc(c):
         return enc_files({k: v.encode("latin-1") for k, v in c["files"].items()})
@@ -194,27 +271,41 @@ def main(replay=None):
         if text_differs and not oracle_failed:
             rep["broken"] = "correspondence: preprocessed text vs emission model (neither repaired nor as_is)"
             run.violation("preprocessed text differs from the emission model (every reported position is right on this input)", rep, found_input=False)
+    lm = judge_linemacro(run, himpl, lm_cases)
+    for k, n in lm["kinds"].items():
+        kinds[k] = kinds.get(k, 0) + n
     for p in problems:
         run.violation("proof obligation not discharged: " + p, {"broken": p, "theorems": run.cov["theorems"]}, found_input=False)
-    run.cov["evaluations"] = len(cases)
-    run.cov["distinct_nontrivial"] = len(distinct)
+    run.cov["evaluations"] = len(cases) + len(lm_cases)
+    run.cov["distinct_nontrivial"] = len(distinct) + lm["distinct"]
     run.cov["rule"] = ("layouts from checks/ppgen.py:Layout (comment blocks, single- and multi-line defines, active/inactive conditional "
                        "sections with else, includes nested up to depth 3 entering and returning, CRLF per file, <= 60 lines) of statements that "
                        "run without diagnostics, followed by one injected fault at a generated file/line/column: parse error, runtime error, "
                        "undefined variable inside call, two-level stack trace, diag_log [__LINE__, __FILE__]; optionally behind an inline block "
                        "comment, a string with a doubled quote, or a macro use (then no column is demanded). Oracle: the generator's position. "
                        "Correspondence: preprocessed text vs the emission model, reported position vs the tokenizer model, 'recognises' evaluated. "
-                       "Every case is non-trivial (a fault is always injected); distinct by file contents")
+                       "Every case is non-trivial (a fault is always injected); distinct by file contents. "
+                       "Family 'linemacro' (checks/ppgen.py:LineMacros, implementation-only oracle): files of generated #defines and uses in which "
+                       "__LINE__/__FILE__ reach the text through macros in every position - plain in a body, left / right / middle operand of '##', "
+                       "operand of '#', through object-like aliases and aliases of aliases, through calls of other macros in a body (plain, pasted, "
+                       "stringified), as argument of a call in the text or in a body, nested calls - with the #define in the same file at any "
+                       "distance, in an included file, behind a conditional (decoy in the dead branch), continued over several lines, re-defined "
+                       "after #undef, and the use in the main file or an included file, several per line, LF/CRLF, between the layout elements of "
+                       "the layout family; every use line must come out as the text the generator computes from 'the line and file where the "
+                       "use is written' (blanks next to brackets/commas ignored), and the preprocessor diagnostics of an expansion (10013 empty "
+                       "argument in the text or in a body, 10014 macro using itself: directly, through a second macro, plain / pasted / "
+                       "stringified, object- and function-like) must be located at exactly the uses that raise them (file and line)")
+    run.cov["line_macro_family"] = {k: v for k, v in lm.items() if k != "samples"}
     run.cov["input_distribution"] = kinds
     run.cov["layout_features"] = feats
-    run.cov["samples"] = samples
+    run.cov["samples"] = samples + lm["samples"]
     run.cov["outcomes"] = stats
     run.cov["conventions_observed"] = ("lines 1-based; columns 0-based byte offsets (tab = 1, CR not counted); runtime error 60076 and its stack "
                                        "trace entry point at the operator token, parse error 30015 at the unexpected token, 60070 at the identifier; "
                                        "the caller's stack-trace entry points at its 'call'; '#line N \"f\"' sets the NEXT line to N+1")
     run.cov["trusted_base"] = ["Coq 8.16.1 kernel (vm_compute in witnesses/Examples only)", "ExtrOcamlBasic extraction + ocaml/pp_driver.ml",
                                "harness/h_pp.cpp + harness/sqfrt.hpp (RecLogger reads location() of every message) + fork/rlimit plumbing",
-                               "layout generator in checks/ppgen.py",
+                               "layout generator in checks/ppgen.py (for the linemacro family also its expected-text evaluator LineMacros.ev)",
                                "models PP/Spec.v (emission rules) and PP/Tracker.v (tokenizer bookkeeping) are hand-written; tied to default.cpp / "
                                "tokenizer.hpp only by this differential run; the parser's use of token positions (sqf_parser.cpp) and the runtime's "
                                "use of diag_info (frame.h, logging.cpp) are observed end to end, not modelled"]
